@@ -191,7 +191,8 @@ impl Ctx {
     /// by choosing a new pivot atom and solving jointly. Returns false if no pivot works.
     pub fn try_add_equation(&mut self, d: u32) -> bool {
         // already satisfied everywhere?
-        if !self.differs_in_some_world(d, 0) {
+        let all_zero = (0..self.worlds.len()).all(|w| self.eval(w, d).is_zero());
+        if all_zero {
             self.equations.push(d);
             // keep pivots/equations square: use a dummy pivot entry (u32::MAX = none)
             self.pivots.push(u32::MAX);
@@ -223,6 +224,17 @@ impl Ctx {
                 if !self.solve_world(w) {
                     ok = false;
                     break;
+                }
+            }
+            if ok {
+                // the extended worlds must still satisfy every disequality of the path condition
+                let nes: Vec<(u32, u32)> = self.pc.iter().filter_map(|l| if let crate::ctx::Lit::Ne(x, y) = l { Some((*x, *y)) } else { None }).collect();
+                for w in 0..self.worlds.len() {
+                    for (x, y) in nes.iter() {
+                        if self.eval(w, *x) == self.eval(w, *y) {
+                            ok = false;
+                        }
+                    }
                 }
             }
             if ok {
